@@ -94,6 +94,22 @@ def part_verbatim(part):
     return ''.join(n.latex_verbatim() for n in part.nodelist if n is not None)
 
 
+def list_verbatim_mismatch(lst):
+    """the list's own latex_verbatim() is the text of its nodes, one after the other (also for a
+    list whose nodes are not adjacent in the source, as the concatenated values of a repeated
+    key); returns a description or None"""
+    if not hasattr(lst, 'latex_verbatim') or not hasattr(lst, 'nodelist'):
+        return None
+    want = part_verbatim(lst)
+    try:
+        got = lst.latex_verbatim()
+    except Exception as e:
+        return 'latex_verbatim() of the list raised %s' % exc_detail(e)
+    if got != want:
+        return 'latex_verbatim() of the list is %r, its nodes read %r' % (got, want)
+    return None
+
+
 def check_nodes_anchored(s, parts, res, case, what):
     for part in parts:
         nodes = [n for n in part.nodelist if n is not None]
@@ -153,6 +169,11 @@ def check_split_chars(s, nl, opt, res, case):
         # no source text, so it is left out of the textual comparison
         parts = [p for p in parts if any(n is not None for n in p.nodelist)]
     got = [part_verbatim(p) for p in parts]
+    for p in parts:
+        bad = list_verbatim_mismatch(p)
+        if bad:
+            res.fail('c18:list-verbatim:part', '%r: %s' % (s, bad), case)
+            return
     if keep_empty or ms is None:
         spans = M.split_keep_empty(s, start, end, seps, ms)
         want = [s[a:b] for a, b in spans]
@@ -414,6 +435,10 @@ def check_keyval(s, nl, opt, res, case):
         return
     gotd = {}
     for k, v in got.items():
+        bad = list_verbatim_mismatch(v)
+        if bad:
+            res.fail('c18:list-verbatim:keyval-value:%s' % tag, '%r key %r: %s' % (s, k, bad), case)
+            return
         try:
             gotd[k] = None if v is None else ''.join(
                 n.latex_verbatim() for n in (v.nodelist if hasattr(v, 'nodelist') else v)
